@@ -10,13 +10,13 @@ def gen_all(run):
     gen_dialect_tables()
 
 
-PAYLOADS = ["", "a", "a'b", "it's", "''", "a\\b", "a\\'b", "\\", "\\\\", 'a"b', '""', "a`b", "x\ny", "é", "\U0001F600", "a\\nb", "%_", "$$", "a''b\\\\"]
+PAYLOADS = ["a]b", "]x", "a]]", "", "a", "a'b", "it's", "''", "a\\b", "a\\'b", "\\", "\\\\", 'a"b', '""', "a`b", "x\ny", "é", "\U0001F600", "a\\nb", "%_", "$$", "a''b\\\\"]
 
 
 def render_source(kind, payload, bs):
     """Render a payload as SOURCE text of a literal/identifier (doubling quotes; in backslash
     dialects escaping backslashes so the literal stays well-formed)."""
-    q = {"sq": "'", "dq": '"', "bq": "`", "nat": "'", "hex": "'"}[kind]
+    q = {"sq": "'", "dq": '"', "bq": "`", "nat": "'", "hex": "'", "br": "]"}[kind]
     body = ""
     for ch in payload:
         if ch == q:
@@ -25,7 +25,9 @@ def render_source(kind, payload, bs):
             body += "\\\\"
         else:
             body += ch
-    pre = {"sq": "", "dq": "", "bq": "", "nat": "N", "hex": "X"}[kind]
+    pre = {"sq": "", "dq": "", "bq": "", "nat": "N", "hex": "X", "br": ""}[kind]
+    if kind == "br":
+        return "[" + body + "]"
     return pre + q + body + q
 
 
@@ -34,7 +36,9 @@ def gen_texts(run, tables):
     for d in DIALECTS:
         bs = tables["dialects"][d]["backslash"]
         for p in PAYLOADS:
-            for k in ("sq", "dq", "bq", "nat"):
+            for k in ("sq", "dq", "bq", "nat", "br"):
+                if k == "br" and (p == "" or p[0] in "]0123456789'\"\\ " or not (int(tables["dialects"][d]["delim_start"]["mask"]) >> 91) & 1):
+                    continue
                 lit = render_source(k, p, bs)
                 out.append({"dialect": d, "sql": "SELECT %s, %s AS c FROM t WHERE x = %s" % (lit, lit, lit)})
             if bs:
@@ -108,7 +112,7 @@ def check(run):
     run.sample({"text": texts[3], "token_level": lp[3], "tree_level": rm[3]})
 
     # lexer model correspondence in both modes on quote/backslash-heavy inputs
-    frag = ["'", "''", "\\", "\\'", "\\\\", '"', '""', "`", "``", "a", " ", "E'", "N'", "x", "'''", '"""', "[", "]", "\n"]
+    frag = ["'", "''", "\\", "\\'", "\\\\", '"', '""', "`", "``", "a", " ", "E'", "N'", "x", "'''", '"""', "[", "]", "]]", "[a]]b]", "\n"]
     lt = []
     for _ in range(700 if run.tier == "quick" else 5000):
         lt.append("".join(run.rng.choice(frag) for _ in range(run.rng.randrange(2, 9))))
